@@ -4,7 +4,7 @@
      ty    Michelson types (annotations are not modelled: pytezos' type equality ignores them)
      data  literals as they appear in PUSH (no code inside)
      instr the instruction AST; sequences are [I_SEQ a (I_SEQ b ... I_NOOP)]
-     value run-time values of the REFERENCE semantics (untyped Micheline data: int and nat are both VInt)
+     value run-time values of the REFERENCE semantics (type-free data: int and nat are both VInt, string and bytes are both VStr)
      pval  run-time values of PYTEZOS: every object carries its class, i.e. its run-time type, exactly
            where pytezos does (OptionType.none(ty), OrType.from_left(v, ty), ListType carries its
            element type, IntType vs NatType are distinct classes).
@@ -17,15 +17,16 @@
        LOOP_LEFT, ITER(list), MAP(list), PAIR, UNPAIR, CAR, CDR, LEFT, RIGHT, SOME, NONE, UNIT, NIL, CONS,
        SIZE, ADD, SUB, MUL, NEG, ABS, ISNAT, INT, EDIV (int/nat), COMPARE, EQ..GE, AND/OR/XOR/NOT (bool),
        CONCAT (strings), FAILWITH
-     later stages: sets/maps, mutez/timestamp arithmetic, SLICE, PAIR n/UNPAIR n/GET n/UPDATE n,
-       LAMBDA/EXEC/APPLY, bytes, bitwise logic on nat/int, LSL/LSR, environment instructions, PACK/UNPACK, hashes. *)
+     stage 2a: bytes (CONCAT, SIZE, SLICE, COMPARE), SLICE on strings, AND/OR/XOR/NOT on nat/int, LSL/LSR
+     later stages: sets/maps, mutez/timestamp arithmetic, PAIR n/UNPAIR n/GET n/UPDATE n,
+       LAMBDA/EXEC/APPLY, environment instructions, PACK/UNPACK, hashes. *)
 From Coq Require Import List ZArith NArith Bool Arith.
 From Coq.Strings Require Import Byte.
 From PV Require Import Base.Bytes.
 Import ListNotations.
 
 Inductive ty : Type :=
-| TInt | TNat | TString | TBool | TUnit
+| TInt | TNat | TString | TBytes | TBool | TUnit
 | TOperation   (* no literal, no value in the fragment: only NIL operation occurs (contract results) *)
 | TPair (a b : ty)
 | TOption (a : ty)
@@ -34,7 +35,7 @@ Inductive ty : Type :=
 
 Fixpoint ty_eqb (x y : ty) : bool :=
   match x, y with
-  | TInt, TInt | TNat, TNat | TString, TString | TBool, TBool | TUnit, TUnit | TOperation, TOperation => true
+  | TInt, TInt | TNat, TNat | TString, TString | TBytes, TBytes | TBool, TBool | TUnit, TUnit | TOperation, TOperation => true
   | TPair a b, TPair c d => ty_eqb a c && ty_eqb b d
   | TOption a, TOption c => ty_eqb a c
   | TOr a b, TOr c d => ty_eqb a c && ty_eqb b d
@@ -46,6 +47,7 @@ Fixpoint ty_eqb (x y : ty) : bool :=
 Inductive data : Type :=
 | DInt (z : Z)
 | DStr (s : bytes)
+| DBytes (b : bytes)
 | DBool (b : bool)
 | DUnit
 | DPair (a b : data)
@@ -79,7 +81,9 @@ Inductive instr : Type :=
 | I_NIL (t : ty) | I_CONS | I_SIZE
 | I_ADD | I_SUB | I_MUL | I_NEG | I_ABS | I_ISNAT | I_INT | I_EDIV
 | I_COMPARE | I_EQ | I_NEQ | I_LT | I_GT | I_LE | I_GE
-| I_AND | I_OR | I_XOR | I_NOT
+| I_AND | I_OR | I_XOR | I_NOT   (* on bool; AND/OR/XOR also on nat (AND also int*nat), NOT on nat/int *)
+| I_LSL | I_LSR
+| I_SLICE
 | I_CONCAT
 | I_FAILWITH.
 
@@ -133,6 +137,7 @@ Fixpoint value_of_data (d : data) : value :=
   match d with
   | DInt z => VInt z
   | DStr s => VStr s
+  | DBytes b => VStr b   (* strings and bytes are both byte sequences for the reference semantics *)
   | DBool b => VBool b
   | DUnit => VUnit
   | DPair a b => VPair (value_of_data a) (value_of_data b)
@@ -149,6 +154,7 @@ Fixpoint data_has_type (t : ty) (d : data) {struct d} : bool :=
   | DInt _, TInt => true
   | DInt z, TNat => (0 <=? z)%Z
   | DStr _, TString => true
+  | DBytes _, TBytes => true
   | DBool _, TBool => true
   | DUnit, TUnit => true
   | DPair x y, TPair a b => data_has_type a x && data_has_type b y
@@ -165,6 +171,7 @@ Inductive pval : Type :=
 | PInt (z : Z)                 (* IntType *)
 | PNat (z : Z)                 (* NatType: a subclass of IntType holding a Python int *)
 | PStr (s : bytes)
+| PBytes (b : bytes)             (* BytesType *)
 | PBool (b : bool)
 | PUnit
 | PPair (a b : pval)           (* PairType: its class is built from the classes of the items *)
@@ -180,6 +187,7 @@ Fixpoint rt_type (v : pval) : ty :=
   | PInt _ => TInt
   | PNat _ => TNat
   | PStr _ => TString
+  | PBytes _ => TBytes
   | PBool _ => TBool
   | PUnit => TUnit
   | PPair a b => TPair (rt_type a) (rt_type b)
@@ -196,6 +204,7 @@ Fixpoint pv_typedb (v : pval) (t : ty) {struct v} : bool :=
   | PInt _, TInt => true
   | PNat z, TNat => (0 <=? z)%Z
   | PStr _, TString => true
+  | PBytes _, TBytes => true
   | PBool _, TBool => true
   | PUnit, TUnit => true
   | PPair x y, TPair a b => pv_typedb x a && pv_typedb y b
@@ -213,6 +222,7 @@ Fixpoint erase (v : pval) : value :=
   | PInt z => VInt z
   | PNat z => VInt z
   | PStr s => VStr s
+  | PBytes b => VStr b
   | PBool b => VBool b
   | PUnit => VUnit
   | PPair a b => VPair (erase a) (erase b)
@@ -229,6 +239,7 @@ Fixpoint py_of_data (t : ty) (d : data) {struct d} : option pval :=
   | DInt z, TInt => Some (PInt z)
   | DInt z, TNat => if (z <? 0)%Z then None else Some (PNat z)
   | DStr s, TString => Some (PStr s)
+  | DBytes b, TBytes => Some (PBytes b)
   | DBool b, TBool => Some (PBool b)
   | DUnit, TUnit => Some PUnit
   | DPair x y, TPair a b =>
@@ -280,6 +291,7 @@ Fixpoint pval_eqb (x y : pval) {struct x} : bool :=
   | PInt a, PInt b => Z.eqb a b
   | PNat a, PNat b => Z.eqb a b
   | PStr a, PStr b => bytes_eqb a b
+  | PBytes a, PBytes b => bytes_eqb a b
   | PBool a, PBool b => Bool.eqb a b
   | PUnit, PUnit => true
   | PPair a b, PPair c d => pval_eqb a c && pval_eqb b d
